@@ -107,6 +107,12 @@ func (g *GRU) Apply(inputs []tensor.Tensor) ([]tensor.Tensor, error) {
 
 	// Extract the shape of the hidden dimensions without the bidirectional dimension, as
 	// we do not support bidirectional GRU yet.
+	// The initial state belongs to the caller: reshape a copy.
+	prevH, ok := prevH.Clone().(tensor.Tensor)
+	if !ok {
+		return nil, ops.ErrTypeAssert("tensor.Tensor", prevH)
+	}
+
 	shapeWithoutBidir := prevH.Shape().Clone()[1:]
 
 	err = prevH.Reshape(shapeWithoutBidir...)
